@@ -2,7 +2,10 @@ pub mod c01;
 pub mod c02;
 pub mod c07;
 pub mod c08;
+pub mod c09;
+pub mod c10;
 pub mod c11;
+pub mod c18;
 pub mod c20;
 
 use crate::driver::CheckSpec;
@@ -22,7 +25,10 @@ pub fn spec(id: &str) -> Option<CheckSpec> {
         "C02" => Some(c02::spec()),
         "C07" => Some(c07::spec()),
         "C08" => Some(c08::spec()),
+        "C09" => Some(c09::spec()),
+        "C10" => Some(c10::spec()),
         "C11" => Some(c11::spec()),
+        "C18" => Some(c18::spec()),
         "C20" => Some(c20::spec()),
         _ => None,
     }
